@@ -178,6 +178,11 @@ pub fn run(rep: &mut Report, tier: Tier) {
     let nsp = sp.len();
     sp.extend(crate::c17::boundary_numbers());
     sp.extend(["1e309", "-1e999", "1e400", "-1E+400", "123e-400", "0e999", "-0.0e-999"].map(String::from));
+    // sticky digits: just above the midpoint of two doubles, the deciding digit far beyond the
+    // 1 075th fraction digit
+    for x in [1.0f64, 9007199254740992.0, 0.1, 1e-300, 123456.75, 5e-324, 2.2250738585072014e-308, 1e22] {
+        sp.extend(refmodel::canon::sticky_spellings(x));
+    }
     sp.push(format!("1{}", "0".repeat(400)));
     sp.push(format!("-{}.5", "9".repeat(400)));
     let t = explore::par_tally(sp.chunks(128).map(|c| c.to_vec()).collect(), |chunk, t| {
